@@ -1,0 +1,11 @@
+//go:build verif
+
+package unsafebytes
+
+// Zero-copy conversions, abstracted for the deductive verifier in /verif.
+//@ spec bytesStr(b []byte) int
+
+//@ func BytesToString
+//@   ensures result == bytesStr(b)
+//@   pure
+//@   trusted zero-copy conversion (unsafe); the string denotes the content of the byte slice
